@@ -38,6 +38,10 @@ func txnScenarios() []txnScen {
 		// an old snapshot reads the keys of a commit while that commit's memtable is being flushed: the commit runs first
 		// (lowest thread id), the flusher next, and one deviation at any of the flusher's file operations lets the reader in
 		{Name: "R9-old-snapshot-reads-while-flushed", Init: init, Staged: []stagedTxn{{Prog: rw("C", "wx", "wy"), Defer: true}, {Prog: ro("rx"), Defer: true, Tail: []txOp{{Op: "G", K: scenKey("x")}, {Op: "G", K: scenKey("y")}}}}},
+		// a conflicting commit followed by forty unrelated transactions that come and go before the reader commits: the
+		// conflict must still be seen (per-transaction resources of the engine are recycled in between)
+		{Name: "S6-lost-update-after-many-bystanders", Init: init, Staged: []stagedTxn{{Prog: rw("C", "rx", "wx"), Defer: true}, {Prog: rw("C", "wx"), Pad: 40}}, Threads: [][]txProg{{ro("rx")}}},
+		{Name: "S7-write-skew-after-many-bystanders", Init: init, Staged: []stagedTxn{{Prog: rw("C", "rx", "ry", "wx"), Defer: true}, {Prog: rw("C", "rx", "ry", "wy"), Pad: 40}}, Threads: [][]txProg{{ro("rx", "ry")}}},
 		{Name: "R6-updating-reader-spans-compactions", Init: init, Threads: [][]txProg{{rw("C", "ry", "Q", "rx", "ry", "wy")}, {rw("C", "rx", "wa", "wx", "wz"), rw("C", "wa", "wx", "wy", "wz"), ro("rx"), rw("C", "wa", "wx", "dy", "wz"), rw("C", "wa", "wx", "wz")}}},
 		{Name: "C1-read-absent-delete", Init: []txProg{rw("C", "wy")}, Threads: [][]txProg{{rw("C", "rx", "wy")}, {rw("C", "wx")}, {rw("C", "dx")}}},
 		{Name: "C2-own-write-then-read", Init: init, Threads: [][]txProg{{rw("C", "wx", "rx", "wy")}, {rw("C", "wx")}, {rw("X", "rx", "wx")}}},
